@@ -269,13 +269,23 @@ def e_blocks(phase, fam):
     return [_variant_block(rt, et, [pn] * 4, [pn] * 4)]
 
 
+def dup_blocks(phase, fam):
+    """frames that list a frequency twice ('duplicated' annotations): identical time base, 1 and 2 frames, every frame
+    from {(), (a,), (a, a), (a, a, b), (b, a, b)} on either side"""
+    a, b = alphabet(phase, fam)[:2]
+    fr = [(), (a,), (a, a), (a, a, b), (b, a, b)]
+    pairs = [(r, e) for r in fr for e in fr if len(set(r)) < len(r) or len(set(e)) < len(e)]
+    allp = [(r, e) for r in fr for e in fr]
+    return [_same_block(ref_times(phase, 1), [pairs]), _same_block(ref_times(phase, 2), [pairs, allp])]
+
+
 def pair_space(tier, phase):
     fam = family_of(phase)
     if tier == "thorough":
         blocks = s_blocks(phase, fam, 2, panel3=4) + d_blocks(phase, other(fam), (0, 1, 2, 3), 6, 6)
     else:
         blocks = s_blocks(phase, fam, 2) + d_blocks(phase, other(fam), (0, 1, 2), 6, 6)
-    blocks += e_blocks(phase, fam)
+    blocks += e_blocks(phase, fam) + dup_blocks(phase, fam)
     blocks.sort(key=lambda b: len(b.comps))        # shortest states first (stable)
     return LazySpace(blocks)
 
